@@ -506,6 +506,162 @@ def eval_env(case):
 # ---------------------------------------------------------------------------------------------
 
 
+# ---------------------------------------------------------------------------------------------
+# (5) every operation that takes an array-like operand or would leave a negative content, x every way of
+#     establishing the mode: refused in strict mode, accepted in free mode (E1)
+# ---------------------------------------------------------------------------------------------
+
+
+def site_hists():
+    from physt.histogram1d import Histogram1D
+    from physt.histogram_nd import Histogram2D
+    from physt import special_histograms as sh
+
+    e = np.array([0.0, 1.0, 2.0])
+    return {
+        "1d_float": lambda: Histogram1D(e, np.array([1.0, 2.0])),
+        "1d_int": lambda: Histogram1D(e, np.array([1, 2])),
+        "1d_weighted": lambda: Histogram1D(e, np.array([0.5, 2.5]), errors2=np.array([0.25, 3.0])),
+        "2d": lambda: Histogram2D([e, np.array([0.0, 1.0])], np.array([[1.0], [2.0]])),
+        "2d_int": lambda: Histogram2D([e, e], np.array([[1, 0], [2, 3]])),
+        "polar": lambda: sh.PolarHistogram([e, np.array([0.0, 1.0, 2.0])], np.array([[1.0, 1.0], [2.0, 0.0]])),
+    }
+
+
+def _ones(h):
+    return np.ones(h.shape)
+
+
+def _big(h):
+    return h * 3
+
+
+def _ipl(name):
+    return lambda h, o: getattr(h, name)(o)
+
+
+SITE_OPS = {
+    # negative contents
+    "mul_neg": lambda h: h * -1,
+    "mul_negf": lambda h: h * -0.5,
+    "rmul_neg": lambda h: -2 * h,
+    "rmul_np_neg": lambda h: np.float64(-2.0) * h,
+    "imul_neg": lambda h: h.__imul__(-1),
+    "div_neg": lambda h: h / -1,
+    "div_negf": lambda h: h / -0.5,
+    "idiv_neg": lambda h: h.__itruediv__(-2),
+    "idiv_np_neg": lambda h: h.__itruediv__(np.float64(-2.0)),
+    "sub_big": lambda h: h - _big(h),
+    "isub_big": lambda h: h.__isub__(_big(h)),
+    "set_frequencies_neg": lambda h: setattr(h, "frequencies", -np.asarray(h.frequencies)),
+    "copy_set_frequencies_neg": lambda h: setattr(h.copy(), "frequencies", -np.asarray(h.frequencies)),
+    "constructor_neg": lambda h: type(h)(h.binnings if h.ndim > 1 else h.binning, -np.asarray(h.frequencies)),
+    "set_dtype_then_imul_neg": lambda h: (h.set_dtype(np.float64), h.__imul__(-2.0)),
+    "copy_then_idiv_neg": lambda h: h.copy().__itruediv__(-4),
+    # array-like operands
+    "add_arr": lambda h: h + _ones(h),
+    "radd_arr": lambda h: _ones(h) + h,
+    "iadd_arr": lambda h: h.__iadd__(_ones(h)),
+    "sub_arr": lambda h: h - _ones(h),
+    "isub_arr": lambda h: h.__isub__(_ones(h)),
+    "mul_arr": lambda h: h * _ones(h),
+    "rmul_arr": lambda h: _ones(h) * h,
+    "imul_arr": lambda h: h.__imul__(_ones(h)),
+    "div_arr": lambda h: h / _ones(h),
+    "idiv_arr": lambda h: h.__itruediv__(_ones(h)),
+    "add_list": lambda h: h + _ones(h).tolist(),
+    "iadd_list": lambda h: h.__iadd__(_ones(h).tolist()),
+    "mul_list": lambda h: h * _ones(h).tolist(),
+    "idiv_list": lambda h: h.__itruediv__(_ones(h).tolist()),
+    "sub_tuple": lambda h: h - tuple(map(tuple, _ones(h))) if h.ndim > 1 else h - tuple(_ones(h)),
+}
+
+# ways of establishing the mode in the current context: (name, mode in force inside)
+SITE_MODES = ["default", "set_false", "set_true", "with_true", "with_false", "true_in_false", "false_in_true", "after_with_true", "after_raise_in_true",
+              "set_true_with_false", "set_false_with_true"]
+
+
+def in_mode(mode, body):
+    """Run body() with the mode established in the named way; returns (flag expected inside, body result)."""
+    from physt.config import config
+
+    enable_free_arithmetics = config.enable_free_arithmetics
+    config.free_arithmetics = False
+    try:
+        if mode == "default":
+            return False, body()
+        if mode == "set_false":
+            config.free_arithmetics = True
+            config.free_arithmetics = False
+            return False, body()
+        if mode == "set_true":
+            config.free_arithmetics = True
+            return True, body()
+        if mode == "with_true":
+            with enable_free_arithmetics():
+                return True, body()
+        if mode == "with_false":
+            with enable_free_arithmetics(False):
+                return False, body()
+        if mode == "true_in_false":
+            with enable_free_arithmetics(False):
+                with enable_free_arithmetics(True):
+                    return True, body()
+        if mode == "false_in_true":
+            with enable_free_arithmetics(True):
+                with enable_free_arithmetics(False):
+                    return False, body()
+        if mode == "after_with_true":
+            with enable_free_arithmetics(True):
+                pass
+            return False, body()
+        if mode == "after_raise_in_true":
+            try:
+                with enable_free_arithmetics(True):
+                    raise Unwind(0)
+            except Unwind:
+                pass
+            return False, body()
+        if mode == "set_true_with_false":
+            config.free_arithmetics = True
+            with enable_free_arithmetics(False):
+                return False, body()
+        if mode == "set_false_with_true":
+            config.free_arithmetics = False
+            with enable_free_arithmetics(True):
+                return True, body()
+        raise KeyError(mode)
+    finally:
+        config.free_arithmetics = False
+
+
+def eval_site(case):
+    """One (histogram, operation, mode): refused iff strict."""
+    mk = site_hists()[case["hist"]]
+    op = SITE_OPS[case["op"]]
+
+    def body():
+        h = mk()
+        try:
+            r = op(h)
+        except Exception as e:  # noqa: BLE001
+            return ("raise", type(e).__name__, None)
+        neg = None
+        for o in (r, h):
+            if hasattr(o, "frequencies"):
+                neg = bool(neg) or bool(np.any(np.asarray(o.frequencies) < 0))
+        return ("ok", type(r).__name__, neg)
+
+    free, got = in_mode(case["mode"], body)
+    out = []
+    kind = "negative" if ("neg" in case["op"] or "big" in case["op"]) else "array_operand"
+    if not free and got[0] != "raise":
+        out.append(V("refused_in_strict_mode", f"site|{kind}|{case['op']}|accepted_in_strict", case, "refused with an error", {"result": got[1], "negative_content": got[2]}))
+    if free and got[0] != "ok":
+        out.append(V("accepted_in_free_mode", f"site|{kind}|{case['op']}|refused_in_free|{got[1]}", case, "accepted", got[1]))
+    return out, f"{kind}:{'free' if free else 'strict'}:{got[0]}"
+
+
 def units(tier, seed):
     thorough = tier == "thorough"
     us = []
@@ -513,6 +669,8 @@ def units(tier, seed):
     for first in range(8):
         us.append({"kind": "nesting", "L": L, "shard": first, "nshards": 8})
     us.append({"kind": "env"})
+    for hname in ("1d_float", "1d_int", "1d_weighted", "2d", "2d_int", "polar"):
+        us.append({"kind": "sites", "hist": hname})
     n = len(MENU)
     for a in range(n):
         for main in (False, True):
@@ -563,6 +721,17 @@ def run_unit(unit, ctx):
             p.transitions += 4
         p.sample(case)
         p.outcome("env")
+    elif kind == "sites":
+        for op in SITE_OPS:
+            for mode in SITE_MODES:
+                case = {"site": True, "hist": unit["hist"], "op": op, "mode": mode}
+                vs, label = eval_site(case)
+                p.ev(True)
+                p.states += 1
+                p.transitions += 1
+                p.outcome("site:" + label)
+                p.extend(vs)
+        p.sample(case)
     elif kind in ("threads_op", "threads_triples", "threads_line"):
         cases = []
         if kind == "threads_op":
@@ -623,6 +792,8 @@ def run_unit(unit, ctx):
 
 
 def replay(case):
+    if case.get("site"):
+        return eval_site(case)[0]
     if "program" in case:
         return eval_nesting(case)
     if "value" in case:
